@@ -4,6 +4,100 @@ Table of claimed checks; bin/mkmanifest turns it into MANIFEST.json.
 
 CLAIMED = {
 
+ 'C01': {
+  'engine'    : 'envdfs',
+  'category'  : 'model_checking',
+  'design_ref': 'DESIGN.md 4 (C01), 3.2 variant B\', A.1',
+  'technique' : 'stateless exploration of the real scheduler loop under all '
+                'environment choices with stateful pruning (explicit-state '
+                'model checking of the implementation); explicit-state BFS '
+                'over NodeList operation histories',
+  'text'      : 'The real AgentSchedulingComponent._schedule_tasks() loop of a '
+                'bare Continuous scheduler (nodes produced by the real '
+                'ResourceManager._init_from_scratch/_filter_nodes) is run '
+                'under every placement of arrivals, completions and cancel '
+                'steps at the points where the loop reads shared state, for '
+                'all task-shape sequences of a finite alphabet on 8 layouts '
+                '(blocked cores/GPUs, agent nodes, lfs/mem, fractional GPUs, '
+                'application-supplied slots).  An independent ledger checks '
+                'after every grant that held placements are disjoint, within '
+                'lfs/mem, on offered nodes and never on blocked resources.  '
+                'The application-level NodeList/Node/NumaNode finder is '
+                'explored by BFS over all find/release/allocate histories to '
+                'a depth bound with the same ledger.',
+  'note'      : 'Bounds: <=3 (quick) / <=4 (thorough) tasks per scenario, '
+                'layouts of 1-3 nodes; ZMQ and mp.Queue replaced by in-memory '
+                'FIFOs with msgpack/pickle copies; the ledger and the slot '
+                'reader are trusted; ContinuousJsrun is not explored.',
+ },
+
+ 'C02': {
+  'engine'    : 'envdfs',
+  'category'  : 'model_checking',
+  'design_ref': 'DESIGN.md 4 (C02)',
+  'technique' : 'same exploration as C01 (real scheduler loop, all '
+                'environment choices, stateful pruning) with a shape oracle '
+                'at every grant; BFS over NodeList histories',
+  'text'      : 'At every grant reached by the exploration of C01 (i.e. on '
+                'every partially occupied pilot reachable by scheduling and '
+                'releasing other tasks) the placement is compared with the '
+                'request: number of ranks, one existing node per rank (name '
+                'and index agree), exactly cores_per_rank distinct cores, '
+                'GPU amount, lfs/mem, ranks_per_node, colocate history; '
+                'oversize requests must be rejected, never granted or left '
+                'waiting on an idle pilot.  NodeList.find_slots results are '
+                'checked against their RankRequirements.',
+  'note'      : 'Same bounds and trusted base as C01; colocate is read as '
+                '"subset of the nodes used for that tag before".',
+ },
+
+ 'C03': {
+  'engine'    : 'envdfs',
+  'category'  : 'model_checking',
+  'design_ref': 'DESIGN.md 4 (C03)',
+  'technique' : 'same exploration as C01 with a release oracle at every loop '
+                'boundary; BFS over NodeList histories; (executor part: '
+                'controlled-scheduler exploration, see C07)',
+  'text'      : 'At every loop boundary of every explored execution the '
+                'scheduler\'s node map must equal the initial map minus '
+                'exactly the slots of tasks granted and not yet released '
+                '(cores, GPUs, lfs, mem), _active_cnt must equal the number of '
+                'holders, and an exception escaping the loop is a violation; '
+                'histories include application-placed tasks and releases '
+                'racing with cancel requests.  NodeList: release restores '
+                'exactly what was taken, failed or refused operations change '
+                'nothing, and after releasing everything the occupancy equals '
+                'the initial one (also with node indices that are not list '
+                'positions and with NUMA domains).',
+  'note'      : 'Same bounds as C01.  The executor side (exactly one '
+                'unschedule publication per task) is decided by the C07 '
+                'harness and reported there and here once that check exists.',
+ },
+
+ 'C04': {
+  'engine'    : 'envdfs',
+  'category'  : 'model_checking',
+  'design_ref': 'DESIGN.md 4 (C04), A.2',
+  'technique' : 'stateless exploration of the real scheduler loop under all '
+                'environment choices with stateful pruning and cycle '
+                'detection for quiescence',
+  'text'      : 'Same exploration; the cancel request is split into its three '
+                'observable steps (component process list, scheduler process '
+                'list, scheduler queue) and offered at every point where the '
+                'loop reads the affected structure.  At every loop boundary '
+                'each task is in exactly one of started/waiting/failed/'
+                'canceled and reported at most once; when the loop cycles '
+                'without outside help (quiescence, detected by state '
+                'repetition) a lone waiter must not fit the free map, an idle '
+                'pilot must not keep waiters that all fit, a waiter that '
+                'cannot fit the idle pilot must have been failed; a FAILED '
+                'task must not fit the idle pilot (plain arithmetic on the '
+                'layout); priority inversion is checked at each grant.',
+  'note'      : 'fits() is an independent brute-force/arithmetic reference for '
+                'scattered placement; liveness clauses are evaluated for '
+                'whole-core/GPU requests without tags only.',
+ },
+
  'C19': {
   'engine'    : 'enum',
   'category'  : 'exploration',
